@@ -56,7 +56,8 @@ def unless_cases(draw, tier):
     b = draw(st.integers(0, 5))
     a = draw(st.integers(0, b))
     n = draw(F.trace_lengths(8))
-    return {'p': p, 'q': q, 'a': a, 'b': b, 'vars': vs, 'trace': draw(F.traces(vs, n=n))}
+    return {'p': p, 'q': q, 'a': a, 'b': b, 'vars': vs, 'trace': draw(F.traces(vs, n=n)),
+            'unit': draw(st.sampled_from(['s', 's', 'ms', 'us'])), 'choices': draw(st.lists(st.integers(0, 11), min_size=8, max_size=8))}
 
 
 def ltl_spec(online):
@@ -177,8 +178,19 @@ def check_unless(case):
         return DISCARD('no-variable', labels)
     feed = [v for v in vs if v in used]
     w = {v: tr[v] for v in feed}
-    tl, trr = 'out = ' + show(lhs) + ';', 'out = ' + show(rhs) + ';'
-    bad = compare(labels, trr, tl, run_kind('dt_off', trr, feed, w), run_kind('dt_off', tl, feed, w), w, 'unless-expansion')
+    # the sugar is spelled with units (sampling period 1 s), the expansion with explicit seconds on both bounds
+    from .C08 import Speller
+    du = case.get('unit', 's')
+    sp = Speller(10 ** 9, du, case.get('choices', [0]))
+    plain = Speller(10 ** 9, du, [0])      # choice 0: first explicit-unit spelling (seconds), both bounds suffixed
+    tl = 'out = ' + F.show(lhs, lambda x, y: sp(x, y) if (x, y) == (a, b) else plain(x, y)) + ';'
+    trr = 'out = ' + F.show(rhs, plain) + ';'
+    kw = dict(unit=du)
+    o_r = run_dt_off(trr, feed, w, **kw)
+    o_l = run_dt_off(tl, feed, w, **kw)
+    o_r = ('ok', [x[1] for x in o_r[1]]) if o_r[0] == 'ok' else o_r
+    o_l = ('ok', [x[1] for x in o_l[1]]) if o_l[0] == 'ok' else o_l
+    bad = compare(labels, trr, tl, o_r, o_l, w, 'unless-expansion')
     if bad:
         return bad
     return PASS(True, labels)
